@@ -166,3 +166,30 @@ fn c03_gl_transpose_flag() {
         assert!(gl(fc, cm::Mat2::<u8>::GL_SHOULD_TRANSPOSE, i, j) == vals[i][j]);
         j += 1; } i += 1; }
 }
+
+// ---------------------------------------------------------------------------------------------- derived PartialEq
+macro_rules! mat_eq {
+    ($h:ident, $M:ty, $n:expr) => {
+        /// `a == b` (derived, compares the row / column vectors) holds exactly when every element (i,j) agrees
+        #[kani::proof]
+        #[kani::unwind(6)]
+        fn $h() {
+            let (va, vb): ([[u8; $n]; $n], [[u8; $n]; $n]) = (kani::any(), kani::any());
+            let (a, b) = (<$M>::from_row_arrays(va), <$M>::from_row_arrays(vb));
+            let mut all = true;
+            let mut i = 0;
+            while i < $n { let mut j = 0; while j < $n {
+                if a[(i, j)] != b[(i, j)] { all = false; }
+                j += 1; } i += 1; }
+            assert!((a == b) == all);
+            assert!((a != b) == !all);
+            assert!(a == a);
+        }
+    };
+}
+mat_eq!(c03_mat_eq_rows2, rm::Mat2<u8>, 2);
+mat_eq!(c03_mat_eq_rows3, rm::Mat3<u8>, 3);
+mat_eq!(c03_mat_eq_rows4, rm::Mat4<u8>, 4);
+mat_eq!(c03_mat_eq_cols2, cm::Mat2<u8>, 2);
+mat_eq!(c03_mat_eq_cols3, cm::Mat3<u8>, 3);
+mat_eq!(c03_mat_eq_cols4, cm::Mat4<u8>, 4);
